@@ -383,6 +383,8 @@ def run(ctx):
             return Obj("method_caller_for_copy", owner=args[0] if args else None)
         if fn == "get_method_owner":
             return None
+        if fn in ("inspect.ismethod", "ismethod"):
+            return False               # neither the method-caller wrapper nor the foreign function is a bound method
         if fn == "id" and args and isinstance(args[0], Obj):
             return args[0].name
         if fn == "setattr" and len(args) == 3 and isinstance(args[0], Obj):
